@@ -316,3 +316,57 @@ Qed.
 Theorem counting_conservation : forall n h,
   Permutation (concat (map snd (cw_run n h)) ++ all_rows (fst (cw_steps cnt_key n [] h))) h.
 Proof. intros n h. apply (c_run_conserves cnt_key n h []). Qed.
+
+(* ---- the checker's declarative N-blocks (Spec/GroupSpec.v [chunks]) are the closed form ------ *)
+From SV Require Import Spec.GroupSpec.
+
+Lemma skipn_add : forall (A : Type) a b (l : list A), skipn (a + b) l = skipn b (skipn a l).
+Proof.
+  induction a as [|a IH]; intros b l; simpl; [reflexivity|].
+  destruct l as [|x l]; [destruct b; reflexivity|apply IH].
+Qed.
+
+Lemma chunks_nth : forall fuel n l i, 1 <= n -> length l <= fuel ->
+  nth_error (chunks fuel n l) i =
+    if S i * n <=? length l then Some (firstn n (skipn (i * n) l)) else None.
+Proof.
+  induction fuel as [|f IH]; intros n l i Hn L; simpl.
+  - assert (E : (n + i * n <=? length l) = false) by (apply Nat.leb_gt; lia).
+    rewrite E. destruct i; reflexivity.
+  - destruct (n <=? length l) eqn:E0.
+    + apply Nat.leb_le in E0. destruct i as [|i]; simpl.
+      * assert (E : (n + 0 <=? length l) = true) by (apply Nat.leb_le; lia). rewrite E. reflexivity.
+      * rewrite IH by (try rewrite skipn_length; lia). rewrite skipn_length. simpl.
+        rewrite skipn_add.
+        destruct (n + i * n <=? length l - n) eqn:E1.
+        -- assert (E2 : (n + (n + i * n) <=? length l) = true) by (apply Nat.leb_le; apply Nat.leb_le in E1; lia).
+           rewrite E2. reflexivity.
+        -- assert (E2 : (n + (n + i * n) <=? length l) = false) by (apply Nat.leb_gt; apply Nat.leb_gt in E1; lia).
+           rewrite E2. reflexivity.
+    + apply Nat.leb_gt in E0.
+      assert (E : (n + i * n <=? length l) = false) by (apply Nat.leb_gt; lia).
+      rewrite E. destruct i; reflexivity.
+Qed.
+
+Lemma nth_error_eq_ext : forall (A : Type) (a b : list A),
+  (forall i, nth_error a i = nth_error b i) -> a = b.
+Proof.
+  induction a as [|x a IH]; destruct b as [|y b]; intro H; auto.
+  - specialize (H 0). discriminate H.
+  - specialize (H 0). discriminate H.
+  - assert (H0 := H 0). simpl in H0. injection H0 as ->. f_equal.
+    apply IH. intro i. exact (H (S i)).
+Qed.
+
+(* what the checker expects for a key (clause ith_batch) is exactly what the model delivers *)
+Theorem counting_matches_spec_blocks : forall n c h t, 1 <= n ->
+  Forall (fun r => length (kvals r) = c) h -> length t = c ->
+  map (map krid) (kbatches_of (tuple_key s_global t) (cw_run n h))
+  = let ids := map krid (krows_of t h) in chunks (length ids) n ids.
+Proof.
+  intros n c h t Hn HC Lt. simpl. apply nth_error_eq_ext. intro i.
+  rewrite nth_error_map, (counting_ith_batch n c h t i Hn HC Lt).
+  rewrite chunks_nth by (auto; lia). rewrite map_length.
+  destruct (S i * n <=? length (krows_of t h)); simpl; [|reflexivity].
+  rewrite skipn_map, firstn_map. reflexivity.
+Qed.
